@@ -52,129 +52,226 @@ def const_int(e):
     return None
 
 
+def _interp(prog, m, **kw):
+    from sa import miniexec as mx
+    from sa import alpha as _alpha
+    known = _alpha.load_table().get('__params__', {}).get(m.rel)
+    known = set(known) if known is not None else None
+    return mx.Interp(prog, m, known_functions=known, enter=('_make_sorted_proportions_list',), **kw)
+
+
+def _lib_calls(events, prefix):
+    return [e for e in events if e[0] == 'call' and e[1].startswith(prefix)]
+
+
 def check_integrate_phi(rep, prog, m):
+    """what _integrate_phi hands to the integrators, for 1..5 populations (abstract execution with a concrete list of labels and
+    symbolic parameter arrays): the integrator for that many populations, every indexed parameter bound to the like-indexed element"""
+    from sa import miniexec as mx
     fn = prog.func(DM, '_integrate_phi')
     rel = m.rel
     rep.saw_function(rel + ':_integrate_phi')
-    unpack = [n for n in fn.body if isinstance(n, ast.Assign) and isinstance(n.targets[0], ast.Tuple) and ast.unparse(n.value) == 'integration_params']
-    if not unpack:
-        raise AnalysisError('anchor vanished: unpacking of integration_params in _integrate_phi')
-    names = [e.id for e in unpack[0].targets[0].elts]
-    src_of = {'nu': names[0], 'T': names[1], 'm': names[2], 'gamma': names[3], 'h': names[4], 'theta0': names[5], 'frozen': names[6]}
-    arms = {}
-    node = next((n for n in fn.body if isinstance(n, ast.If)), None)
-    while node is not None:
-        t = node.test
-        d = None
-        if isinstance(t, ast.Compare) and ast.unparse(t.left) == 'len(pop_ids)' and isinstance(t.ops[0], ast.Eq):
-            d = const_int(t.comparators[0])
-        if d is None:
-            raise AnalysisError('unexpected dispatch test in _integrate_phi: %s' % ast.unparse(t))
-        arms[d] = node.body
-        node = node.orelse[0] if (len(node.orelse) == 1 and isinstance(node.orelse[0], ast.If)) else None
-    rep.ob('R-EXH', '_integrate_phi dispatch', sorted(arms) == [1, 2, 3, 4, 5], 'arms for %s populations' % sorted(arms), rel, fn.lineno, what='one arm per dimension 1..5')
+    src = ('nu', 'T', 'M', 'gamma', 'h', 'theta', 'frozen')
+    src_of = {'nu': 'nu', 'T': 'T', 'm': 'M', 'gamma': 'gamma', 'h': 'h', 'theta0': 'theta', 'frozen': 'frozen'}
     nb = 0
-    for d, body in sorted(arms.items()):
-        calls = [n for st in body for n in ast.walk(st) if isinstance(n, ast.Call) and (dotted(n.func) or '').startswith('dadi.Integration.')]
-        if len(calls) != 1:
-            raise AnalysisError('arm %d of _integrate_phi does not contain exactly one integrator call' % d)
-        c = calls[0]
-        callee = prog.resolve_call(m, c, scope=fn)
-        okc = callee is not None and callee.name == WORDS[d]
-        rep.ob('R-IDX', '_integrate_phi[%dD] integrator' % d, okc, 'calls %s' % dotted(c.func), rel, c.lineno, what='arm for %d populations calls %s' % (d, WORDS[d]))
+    arms = []
+    for d in range(1, 7):
+        it = _interp(prog, m)
+        ids = ['deme%d' % k for k in range(d)]
+        try:
+            paths = it.run(fn, {'phi': mx.Sym('phi'), 'xx': mx.Sym('xx'), 'integration_params': tuple(mx.Sym(x) for x in src), 'pop_ids': ids})
+        except mx.Undecidable as e:
+            raise AnalysisError('_integrate_phi is not recognised: %s' % e)
+        rets = [p for p in paths if p[0][0] == 'return']
+        calls = [c for p in rets for c in _lib_calls(p[1], 'dadi.Integration.')]
+        if d == 6:
+            rep.ob('R-EXH', '_integrate_phi dispatch', arms == [1, 2, 3, 4, 5] and not calls, 'integrators called for %s populations%s' % (arms, '; and for 6' if calls else ''), rel, fn.lineno,
+                   what='one arm per dimension 1..5')
+            break
+        if len(rets) != 1 or len(calls) != 1:
+            rep.ob('R-IDX', '_integrate_phi[%dD] integrator' % d, False, '%d returning paths, %d integrator calls' % (len(rets), len(calls)), rel, fn.lineno, what='arm for %d populations calls %s' % (d, WORDS[d]))
+            continue
+        arms.append(d)
+        ev = calls[0]
+        name = _last(ev[1])
+        callee = prog.func('dadi.Integration', name) if name in prog.mod('dadi.Integration').funcs else None
+        okc = callee is not None and name == WORDS[d] and ev[1] == 'dadi.Integration.' + name
+        rep.ob('R-IDX', '_integrate_phi[%dD] integrator' % d, okc, 'calls %s' % ev[1], rel, fn.lineno, what='arm for %d populations calls %s' % (d, WORDS[d]))
+        ret = rets[0][0][1]
+        okr = mx.call_of(ret, name) is not None
+        rep.ob('R-RET', '_integrate_phi[%dD] result' % d, okr, 'returns %s' % mx.show(ret)[:60], rel, fn.lineno, what='the integrated density is returned')
         if callee is None:
             continue
-        b, problems = bind_call(callee, c)
-        rep.ob('R-SIG', '_integrate_phi[%dD] call' % d, not problems, '; '.join(problems) or 'conforms to %s' % callee.name, rel, c.lineno, what='call conforms')
-        # every indexed parameter of the integrator must be bound
-        want = [p for p in positional_params(callee) if re.fullmatch(r'(nu|gamma|h|frozen)\d?|m\d\d', p)]
-        missing = [p for p in want if p not in b]
+        pp = positional_params(callee)
+        b, problems = {}, []
+        for k, a in enumerate(ev[2]):
+            if k < len(pp):
+                b[pp[k]] = a
+            else:
+                problems.append('too many positional arguments')
+        for k, a in ev[3].items():
+            if k in b:
+                problems.append('%s passed twice' % k)
+            elif k not in func_params(callee):
+                problems.append('no parameter %s' % k)
+            b[k] = a
+        rep.ob('R-SIG', '_integrate_phi[%dD] call' % d, not problems, '; '.join(problems) or 'conforms to %s' % callee.name, rel, fn.lineno, what='call conforms')
+        want = [p_ for p_ in pp if re.fullmatch(r'(nu|gamma|h|frozen)\d?|m\d\d', p_)]
+        missing = [p_ for p_ in want if p_ not in b]
         rep.ob('R-EXH', '_integrate_phi[%dD] coverage' % d, not missing, 'unbound integrator parameters: %s' % missing if missing else '%d indexed parameters bound' % len(want),
-               rel, c.lineno, what='every size, migration, selection, dominance and frozen parameter is passed')
-        for p, val in b.items():
-            mm = re.fullmatch(r'(nu|gamma|h|frozen)(\d?)', p)
-            m2 = re.fullmatch(r'm(\d)(\d)', p)
+               rel, fn.lineno, what='every size, migration, selection, dominance and frozen parameter is passed')
+        for p_, val in b.items():
+            mm = re.fullmatch(r'(nu|gamma|h|frozen)(\d?)', p_)
+            m2 = re.fullmatch(r'm(\d)(\d)', p_)
             exp = None
             if mm:
                 k = int(mm.group(2)) if mm.group(2) else 1
                 exp = '%s[%d]' % (src_of[mm.group(1)], k - 1)
             elif m2:
                 exp = '%s[%d, %d]' % (src_of['m'], int(m2.group(1)) - 1, int(m2.group(2)) - 1)
-            elif p == 'theta0':
+            elif p_ == 'theta0':
                 exp = src_of['theta0']
-            elif p == 'T':
+            elif p_ == 'T':
                 exp = src_of['T']
-            elif p == 'deme_ids':
-                exp = 'pop_ids'
-            elif p in ('phi', 'xx'):
-                exp = p
-            elif p == 'initial_t':
+            elif p_ == 'deme_ids':
+                exp = mx.show(ids)
+            elif p_ in ('phi', 'xx'):
+                exp = p_
+            elif p_ == 'initial_t':
                 exp = '0'
             if exp is None:
                 continue
-            got = ast.unparse(val).replace('(', '').replace(')', '')
+            got = mx.show(val)
             nb += 1
-            rep.ob('R-IDX', '_integrate_phi[%dD] %s' % (d, p), got == exp, '%s=%s (expected %s)' % (p, got, exp), rel, val.lineno, what='keyword %s receives the like-indexed element' % p)
+            rep.ob('R-IDX', '_integrate_phi[%dD] %s' % (d, p_), got == exp, '%s=%s (expected %s)' % (p_, got, exp), rel, fn.lineno, what='keyword %s receives the like-indexed element' % p_)
     if nb < 100 and all(o.ok for o in rep.obls):
         raise AnalysisError('only %d keyword bindings analysed in _integrate_phi (expected >= 100)' % nb)
 
 
+def _subsets(items):
+    import itertools
+    for r in range(1, len(items) + 1):
+        for c in itertools.combinations(items, r):
+            yield list(c)
+            if r > 1:
+                yield list(reversed(c))
+
+
 def check_dispatch_lists(rep, prog, m):
+    """which PhiManip routine the event handlers call, with which proportions, for every number of populations, every destination /
+    parent and every set of sources (abstract execution with concrete labels and symbolic proportions)"""
+    from sa import miniexec as mx
     rel = m.rel
+    n_runs = 0
+    # ---- in-place pulses ----------------------------------------------------------------------------------------------------------------
     ad = prog.func(DM, '_admix_phi')
-    n_lists = 0
-    for n in own_nodes(ad):
-        if isinstance(n, ast.Subscript) and isinstance(n.value, ast.List) and ast.unparse(n.slice) == 'dest_i':
-            n_lists += 1
-            for k, el in enumerate(n.value.elts):
-                nm = _last(dotted(el))
-                mm = re.search(r'into_(\d)$', nm)
-                md = re.match(r'phi_(\d)D_', nm)
-                ok = bool(mm) and int(mm.group(1)) == k + 1 and prog.resolve_expr(m, el, scope=ad) is not None and prog.resolve_expr(m, el, scope=ad)[0] == 'func'
-                rep.ob('R-IDX', '_admix_phi pulse list', ok, 'element %d is %s' % (k, nm), rel, el.lineno, what='element d is the pulse into population d+1 (%s)' % nm)
-            D = len(n.value.elts)
-            # the list is used under len(pop_ids) == D and all entries are D-dimensional
-            par = n
-            while par is not None and not (isinstance(par, ast.If) and 'len(pop_ids)' in ast.unparse(par.test)):
-                par = getattr(par, '_parent', None)
-            okd = par is not None and const_int(par.test.comparators[0]) == D and all((re.match(r'phi_(\d)D_', _last(dotted(e))) or [None, '0'])[1] == str(D) for e in n.value.elts)
-            rep.ob('R-IDX', '_admix_phi pulse list', bool(okd), '%d-entry list used for %s' % (D, ast.unparse(par.test) if par is not None else '?'), rel, n.lineno, what='list for D populations has D D-dimensional entries')
-            # call arity: phi, D-1 proportions, D grids
-            calls = [c for c in ast.walk(par) if isinstance(c, ast.Call) and dotted(c.func) == 'pulse'] if par is not None else []
-            for c in calls:
-                okc = len(c.args) == 1 + (D - 1) + D and ast.unparse(c.args[0]) == 'phi' and all(ast.unparse(a) == 'xx' for a in c.args[D:])
-                rep.ob('R-SIG', '_admix_phi pulse call %dD' % D, okc, ast.unparse(c), rel, c.lineno, what='pulse receives phi, D-1 proportions and D grids')
-    if n_lists != 4:
-        raise AnalysisError('expected 4 pulse dispatch lists in _admix_phi, found %d' % n_lists)
+    rep.saw_function(rel + ':_admix_phi')
+    bad = {'func': [], 'props': [], 'grids': [], 'ret': []}
+    for D in range(2, 6):
+        ids = ['deme%d' % k for k in range(D)]
+        for dest in range(D):
+            others = [k for k in range(D) if k != dest]
+            for srcs in _subsets(others):
+                forms = [('list', [mx.Sym('f%d' % k) for k in srcs], [ids[k] for k in srcs])]
+                if len(srcs) == 1:
+                    forms.append(('scalar', mx.Sym('f%d' % srcs[0], attrs={'__pytype__': 'float'}), ids[srcs[0]]))
+                for form, props, sources in forms:
+                    it = _interp(prog, m)
+                    tag = '%dD dest %d sources %s%s' % (D, dest + 1, [k + 1 for k in srcs], ' (scalars)' if form == 'scalar' else '')
+                    try:
+                        paths = it.run(ad, {'phi': mx.Sym('phi'), 'xx': mx.Sym('xx'), 'proportions': props, 'pop_ids': list(ids), 'sources': sources, 'dest': ids[dest]})
+                    except mx.Undecidable as e:
+                        raise AnalysisError('_admix_phi is not recognised: %s' % e)
+                    n_runs += 1
+                    rets = [p for p in paths if p[0][0] == 'return']
+                    calls = [c for p in rets for c in _lib_calls(p[1], 'dadi.PhiManip.')]
+                    if len(rets) != 1 or len(calls) != 1:
+                        bad['func'].append('%s: %d returning paths, %d pulse calls' % (tag, len(rets), len(calls)))
+                        continue
+                    if mx.show(rets[0][0][1]) != 'phi':
+                        bad['ret'].append('%s: returns %s' % (tag, mx.show(rets[0][0][1])[:40]))
+                    ev = calls[0]
+                    nm = _last(ev[1])
+                    mi, md = re.search(r'into_(\d)$', nm), re.match(r'phi_(\d)D_admix', nm)
+                    if not (mi and md and int(mi.group(1)) == dest + 1 and int(md.group(1)) == D and nm in prog.mod('dadi.PhiManip').funcs):
+                        bad['func'].append('%s: calls %s' % (tag, nm))
+                    args = [mx.show(a) for a in ev[2]]
+                    want = ['f%d' % k if k in srcs else '0' for k in others]
+                    if D == 2:
+                        want = ['f%d' % srcs[0]]
+                    if args[:1] != ['phi'] or args[1:D] != want or ev[3]:
+                        bad['props'].append('%s: %s(%s), expected proportions %s' % (tag, nm, ', '.join(args[:D]), want))
+                    if args[D:] != ['xx'] * D:
+                        bad['grids'].append('%s: grids %s' % (tag, args[D:]))
+    for k, lab, what in (('func', '_admix_phi pulse list', 'the pulse into population d+1 of the D-dimensional density is the routine phi_<D>D_admix_.._into_<d+1>'),
+                         ('props', '_admix_phi pulse proportions', 'the proportions are those of the other populations in ascending order, 0 for a population that is not a source'),
+                         ('grids', '_admix_phi pulse call', 'pulse receives phi, D-1 proportions and D grids'),
+                         ('ret', '_admix_phi result', 'the density modified in place is returned')):
+        rep.ob('R-IDX' if k != 'grids' else 'R-SIG', lab, not bad[k], '; '.join(bad[k][:2]) if bad[k] else '2..5 populations, every destination, every ordered set of sources (%d runs)' % n_runs, rel, ad.lineno, what=what)
+    # ---- splits -----------------------------------------------------------------------------------------------------------------------
     sp = prog.func(DM, '_split_phi')
-    for n in own_nodes(sp):
-        if isinstance(n, ast.Subscript) and isinstance(n.value, ast.List) and ast.unparse(n.slice) == 'parent_i':
-            elts = n.value.elts
-            if all(isinstance(e, ast.List) for e in elts):
-                ok = all([const_int(x) for x in e.elts] == [1 if j == k else 0 for j in range(len(elts))] for k, e in enumerate(elts))
-                rep.ob('R-IDX', '_split_phi proportions', ok, ast.unparse(n.value), rel, n.lineno, what='row d is the unit vector of parent d+1')
+    rep.saw_function(rel + ':_split_phi')
+    bads = []
+    for D in range(1, 5):
+        ids = ['deme%d' % k for k in range(D)]
+        for parent in range(D):
+            it = _interp(prog, m)
+            tag = '%dD parent %d' % (D, parent + 1)
+            try:
+                paths = it.run(sp, {'phi': mx.Sym('phi'), 'xx': mx.Sym('xx'), 'pop_ids': list(ids), 'parent': ids[parent], 'new_pop_ids': mx.Sym('new_pop_ids')})
+            except mx.Undecidable as e:
+                raise AnalysisError('_split_phi is not recognised: %s' % e)
+            rets = [p for p in paths if p[0][0] == 'return']
+            calls = [c for p in rets for c in _lib_calls(p[1], 'dadi.PhiManip.')]
+            if len(rets) != 1 or len(calls) != 1:
+                bads.append('%s: %d returning paths, %d calls' % (tag, len(rets), len(calls)))
+                continue
+            ev = calls[0]
+            nm = _last(ev[1])
+            args = [mx.show(a) for a in ev[2]]
+            kw = {k: mx.show(v) for k, v in ev[3].items()}
+            if D == 1:
+                ok = nm == 'phi_1D_to_2D' and args == ['xx', 'phi']
+            elif D == 2:
+                ok = nm == 'phi_2D_to_3D_split_%d' % (parent + 1) and args == ['xx', 'phi']
             else:
-                for k, el in enumerate(elts):
-                    nm = _last(dotted(el))
-                    mm = re.search(r'split_(\d)$', nm)
-                    rep.ob('R-IDX', '_split_phi function list', bool(mm) and int(mm.group(1)) == k + 1, 'element %d is %s' % (k, nm), rel, el.lineno,
-                           what='element d splits population d+1')
-    # new-population constructors receive the leading D-1 proportions in order
-    for fq in ('_split_phi', '_admix_new_pop_phi'):
-        f = prog.func(DM, fq)
-        for c in own_nodes(f):
-            if isinstance(c, ast.Call) and re.search(r'phi_(\d)D_to_(\d)D(_admix)?$', dotted(c.func) or ''):
-                D = int(re.search(r'phi_(\d)D_to', dotted(c.func)).group(1))
-                if D == 1:
-                    ok1 = [ast.unparse(a) for a in c.args] == ['xx', 'phi'] and {k.arg: ast.unparse(k.value) for k in c.keywords} == {'deme_ids': 'new_pop_ids'}
-                    rep.ob('R-IDX', '%s -> phi_1D_to_2D' % fq, ok1, ast.unparse(c), rel, c.lineno, what='grid, density and new labels')
-                    continue
-                props = [ast.unparse(a) for a in c.args[1:D]]
-                base = props[0].split('[')[0] if props else ''
-                ok = props == ['%s[%d]' % (base, i) for i in range(D - 1)] and all(ast.unparse(a) == 'xx' for a in c.args[D:])
-                kw = {k.arg: ast.unparse(k.value) for k in c.keywords}
-                ok = ok and kw.get('deme_ids') == 'new_pop_ids'
-                rep.ob('R-IDX', '%s -> %s' % (fq, _last(dotted(c.func))), ok, ast.unparse(c)[:120], rel, c.lineno, what='first D-1 proportions in order, D+1 grids, new labels')
+                unit = ['1' if k == parent else '0' for k in range(D)]
+                ok = nm == 'phi_%dD_to_%dD' % (D, D + 1) and args == ['phi'] + unit[:D - 1] + ['xx'] * (D + 1)
+            ok = ok and kw == {'deme_ids': 'new_pop_ids'} and mx.call_of(rets[0][0][1], nm) is not None and nm in prog.mod('dadi.PhiManip').funcs
+            if not ok:
+                bads.append('%s: %s(%s)' % (tag, nm, ', '.join(args + ['%s=%s' % x for x in kw.items()])))
+    rep.ob('R-IDX', '_split_phi function list', not bads, '; '.join(bads[:2]) if bads else '1..4 populations, every parent: the split routine of that parent / the unit proportion vector of that parent', rel, sp.lineno,
+           what='the child is split off population d+1: routine split_<d+1> for two populations, unit vector of the parent (first D-1 entries) for three and four')
+    # ---- new populations by admixture -----------------------------------------------------------------------------------------------------
+    an = prog.func(DM, '_admix_new_pop_phi')
+    rep.saw_function(rel + ':_admix_new_pop_phi')
+    badn = []
+    for D in range(2, 5):
+        ids = ['deme%d' % k for k in range(D)]
+        for pars in _subsets(list(range(D))):
+            it = _interp(prog, m)
+            tag = '%dD parents %s' % (D, [k + 1 for k in pars])
+            try:
+                paths = it.run(an, {'phi': mx.Sym('phi'), 'xx': mx.Sym('xx'), 'proportions': [mx.Sym('f%d' % k) for k in pars], 'pop_ids': list(ids), 'parents': [ids[k] for k in pars],
+                                    'new_pop_ids': mx.Sym('new_pop_ids')})
+            except mx.Undecidable as e:
+                raise AnalysisError('_admix_new_pop_phi is not recognised: %s' % e)
+            rets = [p for p in paths if p[0][0] == 'return']
+            calls = [c for p in rets for c in _lib_calls(p[1], 'dadi.PhiManip.')]
+            if len(rets) != 1 or len(calls) != 1:
+                badn.append('%s: %d returning paths, %d calls' % (tag, len(rets), len(calls)))
+                continue
+            ev = calls[0]
+            nm = _last(ev[1])
+            args = [mx.show(a) for a in ev[2]]
+            kw = {k: mx.show(v) for k, v in ev[3].items()}
+            want = ['f%d' % k if k in pars else '0' for k in range(D - 1)]
+            ok = nm == ('phi_2D_to_3D_admix' if D == 2 else 'phi_%dD_to_%dD' % (D, D + 1)) and args == ['phi'] + want + ['xx'] * (D + 1) and kw == {'deme_ids': 'new_pop_ids'} and \
+                mx.call_of(rets[0][0][1], nm) is not None and nm in prog.mod('dadi.PhiManip').funcs
+            if not ok:
+                badn.append('%s: %s(%s)' % (tag, nm, ', '.join(args + ['%s=%s' % x for x in kw.items()])))
+    rep.ob('R-IDX', '_admix_new_pop_phi -> constructors', not badn, '; '.join(badn[:2]) if badn else '2..4 populations, every ordered set of parents: first D-1 proportions in population order, D+1 grids, new labels',
+           rel, an.lineno, what='the new population draws proportion f_k from population k (0 from a population that is not a parent); the last proportion is implied')
 
 
 def check_root_equilibrium(rep, prog, m):
